@@ -68,6 +68,7 @@ type Options struct {
 	InvalidPodFaults bool          // the fault plan may answer Pod creates with 422 Invalid (a legitimate source of admission errors)
 	StoreYield       bool          // make the active-job store's compare-and-add a scheduling point
 	DeepLag          bool          // in lag mode the starved cache falls behind by many syncs, not just a few steps
+	Stall            time.Duration // lag mode: the starved caches' watches stall for windows of up to this long (virtual time goes on, the cache stays as it was); 0: never
 	Relist           bool          // a cache that is two or more events behind may lose its watch and relist (tombstones, skipped versions)
 	LagKinds         []Kind        // in lag mode: starve exactly these caches (default: one or two chosen at random)
 	TraceCap         int
@@ -152,6 +153,8 @@ type World struct {
 	Stat map[string]int
 	// weights for lag mode
 	lagWeight map[Kind]int
+	// watch stalls (lag mode with Options.Stall): windows of virtual time in which a kind's events are not delivered
+	stalls map[Kind][][2]time.Time
 
 	traceMu      sync.Mutex
 	Stuck        bool // step budget exhausted
@@ -239,6 +242,20 @@ func NewWorld(opt Options) *World {
 		w.lagWeight[kinds[w.Rnd.Intn(3)]] = 1
 		if w.Rnd.Intn(3) == 0 {
 			w.lagWeight[kinds[w.Rnd.Intn(3)]] = 1
+		}
+	}
+	if opt.Mode == "lag" && opt.Stall > 0 {
+		w.stalls = map[Kind][][2]time.Time{}
+		for _, k := range []Kind{KJob, KJobConfig, KPod} {
+			if w.lagWeight[k] != 1 {
+				continue
+			}
+			t := w.Clk.Now().Add(time.Duration(5+w.Rnd.Intn(40)) * time.Second)
+			for n := 0; n < 6; n++ {
+				d := time.Duration(3+w.Rnd.Intn(int(opt.Stall/time.Second))) * time.Second
+				w.stalls[k] = append(w.stalls[k], [2]time.Time{t, t.Add(d)})
+				t = t.Add(d + time.Duration(10+w.Rnd.Intn(60))*time.Second)
+			}
 		}
 	}
 	w.Mon = newMonitors(w)
@@ -551,6 +568,27 @@ type action struct {
 	label  string
 }
 
+// stalledUntil reports whether the watch of kind k is stalled now, and until when.
+func (w *World) stalledUntil(k Kind) (time.Time, bool) {
+	now := w.Clk.Now()
+	for _, win := range w.stalls[k] {
+		if !now.Before(win[0]) && now.Before(win[1]) {
+			return win[1], true
+		}
+	}
+	return time.Time{}, false
+}
+
+// anyBehind reports whether some cache has not been brought up to the API's state.
+func (w *World) anyBehind() bool {
+	for _, inf := range w.Inc.Ctx.Inf.All() {
+		if inf.NextSeq(w.API) >= 0 || len(inf.PendingListeners()) > 0 {
+			return true
+		}
+	}
+	return false
+}
+
 func (w *World) enabled() []action {
 	var acts []action
 	inc := w.Inc
@@ -568,6 +606,9 @@ func (w *World) enabled() []action {
 		}
 	} else {
 		for _, inf := range inc.Ctx.Inf.All() {
+			if _, st := w.stalledUntil(inf.Kind); st {
+				continue
+			}
 			if inf.NextSeq(w.API) >= 0 {
 				acts = append(acts, action{kind: "deliver", weight: w.lagWeight[inf.Kind], inf: inf})
 			}
@@ -575,6 +616,9 @@ func (w *World) enabled() []action {
 	}
 	if w.Opt.Relist && w.Opt.Mode != "seq" {
 		for _, inf := range inc.Ctx.Inf.All() {
+			if _, st := w.stalledUntil(inf.Kind); st {
+				continue
+			}
 			if inf.Behind(w.API) >= 2 {
 				acts = append(acts, action{kind: "relist", weight: 1, inf: inf})
 			}
@@ -648,6 +692,11 @@ func (w *World) nextTimer() (time.Time, bool) {
 	if w.Opt.Resync > 0 {
 		upd(w.nextSync, true)
 	}
+	for _, inf := range w.Inc.Ctx.Inf.All() {
+		if until, st := w.stalledUntil(inf.Kind); st && inf.NextSeq(w.API) >= 0 {
+			upd(until, true) // the stalled watch resumes
+		}
+	}
 	if w.Opt.Cron {
 		if t, ok := w.Mon.nextCronDue(); ok {
 			upd(t, true)
@@ -676,6 +725,7 @@ func (w *World) perform(a action) {
 		w.trace("deliver %s #%d", a.inf.Kind, seq)
 		a.inf.DeliverOne(w.API)
 	case "relist":
+		a.inf.OnTombstone = w.Mon.onTombstone
 		ch, tomb := a.inf.Relist(w.API)
 		w.Stat["relist_tombstones"] += tomb
 		w.trace("relist %s: %d adds/updates, %d tombstones", a.inf.Kind, ch, tomb)
@@ -759,11 +809,17 @@ func (w *World) Run() {
 			w.perform(w.pick(acts))
 			continue
 		}
-		// quiescent point
-		w.Stat["quiescent_points"]++
-		w.Mon.onQuiescent()
-		for _, f := range w.OnQuiescent {
-			f()
+		if w.anyBehind() {
+			// nothing is runnable only because a watch is stalled: the clock goes on, but this is not a
+			// quiescent point (the caches are not current), so the oracles of quiescent points do not apply
+			w.Stat["stalled_clock_advances"]++
+		} else {
+			// quiescent point
+			w.Stat["quiescent_points"]++
+			w.Mon.onQuiescent()
+			for _, f := range w.OnQuiescent {
+				f()
+			}
 		}
 		next, ok := w.nextTimer()
 		if !ok {
